@@ -71,20 +71,7 @@ var baselineFuncs, baselineFingerprint = func() (map[string]bool, map[string]map
 }()
 
 func declKey(pkgPath string, fd *ast.FuncDecl) string {
-	recv := ""
-	if fd.Recv != nil && len(fd.Recv.List) == 1 {
-		t := fd.Recv.List[0].Type
-		if s, ok := t.(*ast.StarExpr); ok {
-			t = s.X
-		}
-		if ix, ok := t.(*ast.IndexExpr); ok {
-			t = ix.X
-		}
-		if id, ok := t.(*ast.Ident); ok {
-			recv = id.Name
-		}
-	}
-	return pkgPath + "\t" + recv + "\t" + fd.Name.Name
+	return pinnedDeclKey(rawDeclKey(pkgPath, fd))
 }
 
 // listFuncDecls prints the baseline table for the loaded tree.
